@@ -340,3 +340,214 @@ def call_model(param_items, ret_item=None, args=None):
     if annerr:
         out.add(ANNERR)
     return out or {ACCEPT}
+
+
+# ------------------------------------------------------------------------------------------
+# trees: own flatten, structure algebra, leaf types
+
+LEAF = "*"
+
+
+def _children(v):
+    """Children of a container VALUE SPEC, or None if the value is not a container."""
+    t = v["t"]
+    if t in ("tuple", "list", "nt", "node"):
+        return list(v["c"])
+    if t == "dict":
+        return [c for _, c in sorted(v["c"], key=lambda kv: kv[0])]
+    if t == "none":
+        return []
+    return None
+
+
+def _node_tag(v):
+    t = v["t"]
+    if t == "dict":
+        return ("dict", tuple(sorted(k for k, _ in v["c"])))
+    if t in ("tuple", "list", "nt", "node"):
+        return (t, len(v["c"]))
+    if t == "none":
+        return ("none", 0)
+    return None
+
+
+def flatten(v, is_leaf):
+    """-> (struct, leaves): top-down; a subtree for which is_leaf(v) holds is a leaf; None and empty
+    containers contribute no leaves.  struct: LEAF | (tag, [child structs])"""
+    if is_leaf(v):
+        return LEAF, [v]
+    ch = _children(v)
+    if ch is None:
+        return LEAF, [v]
+    leaves, subs = [], []
+    for c in ch:
+        s, ls = flatten(c, is_leaf)
+        subs.append(s)
+        leaves.extend(ls)
+    return (_node_tag(v), subs), leaves
+
+
+def struct_of(v):
+    return flatten(v, lambda x: False)[0]
+
+
+def compose(s, t):
+    if s == LEAF:
+        return t
+    return (s[0], [compose(c, t) for c in s[1]])
+
+
+def is_prefix(n, x):
+    """n is a prefix of x: x is obtained from n by replacing leaves with arbitrary subtrees."""
+    if n == LEAF:
+        return True
+    if x == LEAF or n[0] != x[0]:
+        return False
+    return all(is_prefix(a, b) for a, b in zip(n[1], x[1]))
+
+
+def is_suffix(t, x):
+    """x is obtained from some U by replacing every leaf of U with t."""
+    if x == t:
+        return True
+    if x == LEAF:
+        return False
+    return all(is_suffix(t, c) for c in x[1])
+
+
+def num_leaves(s):
+    return 1 if s == LEAF else sum(num_leaves(c) for c in s[1])
+
+
+class TreeModel:
+    def __init__(self, anns):
+        self.anns = anns
+
+    # -- leaf types ---------------------------------------------------------------------------
+    def leaf_match(self, L, v, ctx, label, flat):
+        """-> (outs, post).  flat=True: flatten mode (array annotations only test the array type, no binding)."""
+        if L == "any":
+            return {ACCEPT}, ctx
+        if L == "int":
+            return ({ACCEPT}, ctx) if v["t"] == "int" else ({REJECT}, None)
+        if L == "str":
+            return ({ACCEPT}, ctx) if v["t"] == "str" else ({REJECT}, None)
+        if L == "leaf":
+            return ({ACCEPT}, ctx) if v["t"] == "leaf" else ({REJECT}, None)
+        if L == "none":
+            return ({ACCEPT}, ctx) if v["t"] == "none" else ({REJECT}, None)
+        spec = self.anns[L]
+        k = spec["k"]
+        if k == "arr":
+            if flat:
+                at, vt = spec["atype"], v["t"]
+                ok = vt in ("np", "duck", "mduck") and not (at == "np" and vt != "np") and not (at in ("duck", "mduck") and vt == "np") \
+                    and not (at == "mduck" and vt != "mduck")
+                return ({ACCEPT}, ctx) if ok else ({REJECT}, None)
+            return match_array(spec, v, ctx, label)
+        if k == "tuple":
+            if v["t"] not in ("tuple", "nt") or len(v["c"]) != len(spec["items"]):
+                return {REJECT}, None
+            cur = ctx
+            for it, c in zip(spec["items"], v["c"]):
+                o, p = self.leaf_match(it, c, cur, label, flat)
+                if o != {ACCEPT}:
+                    return o, None
+                cur = p
+            return {ACCEPT}, cur
+        if k == "union":
+            outs = set()
+            for it in spec["items"]:
+                o, p = self.leaf_match(it, v, ctx, label, flat)
+                if ACCEPT in o:
+                    return o, p
+                outs |= o
+            return outs, None
+        if k == "tree":
+            return self.match_tree(spec, v, ctx, outer_label=label, flat=flat)
+        if k == "baretree":
+            return {ACCEPT}, ctx
+        raise ValueError(k)
+
+    # -- PyTree[L] / PyTree[L, struct] ----------------------------------------------------------
+    def match_tree(self, spec, v, ctx, outer_label=None, flat=False, top=True):
+        if v["t"] == "none":
+            return {ACCEPT}, ctx  # a top-level None is always accepted (and binds nothing)
+        L = spec["leaf"]
+        struct_s = spec.get("struct")
+        if L == "any":
+            is_leaf = lambda x: False  # noqa: E731
+        else:
+            is_leaf = lambda x: ACCEPT in self.leaf_match(L, x, ctx, None, True)[0]  # noqa: E731
+        st, leaves = flatten(v, is_leaf)
+        post = ctx.copy()
+        outs_extra = set()
+        if struct_s is not None:
+            if outer_label is not None and outer_label != "":
+                pass
+            pieces = struct_s.split()
+            if len(pieces) == 1 and pieces[0] != "...":
+                name = pieces[0]
+                if name in post.structs:
+                    if post.structs[name] != st:
+                        return {REJECT}, None
+                else:
+                    post.structs[name] = st
+            else:
+                prefix = pieces[-1] == "..."
+                suffix = pieces[0] == "..."
+                names = [p for p in pieces if p != "..."]
+                if any(n not in post.structs for n in names):
+                    return {ANNERR}, None
+                named = LEAF
+                for n in names:
+                    named = compose(named, post.structs[n])
+                if prefix:
+                    ok = is_prefix(named, st)
+                elif suffix:
+                    ok = is_suffix(named, st)
+                else:
+                    ok = named == st
+                if not ok:
+                    return {REJECT}, None
+        for i, leaf in enumerate(leaves):
+            if struct_s is not None:
+                if outer_label:
+                    return {ANNERR}, None  # '?' scope would be ambiguous: two structured PyTrees
+                label = f"(Leaf {i} in structure {struct_s}) "
+            else:
+                label = outer_label
+            o, p = self.leaf_match(L, leaf, post, label, flat)
+            if o != {ACCEPT}:
+                return o | outs_extra, None
+            post = p
+        return {ACCEPT}, (ctx if flat else post)
+
+
+def value_from_object(obj):
+    """Real Python object (built from a PyTreeDef with dummy leaves) -> value spec (containers only)."""
+    from .seams import NT, Node
+
+    if obj is None:
+        return {"t": "none"}
+    if isinstance(obj, NT):
+        return {"t": "nt", "c": [value_from_object(c) for c in obj]}
+    if isinstance(obj, tuple):
+        return {"t": "tuple", "c": [value_from_object(c) for c in obj]}
+    if isinstance(obj, list):
+        return {"t": "list", "c": [value_from_object(c) for c in obj]}
+    if isinstance(obj, dict):
+        return {"t": "dict", "c": [[k, value_from_object(c)] for k, c in sorted(obj.items())]}
+    if isinstance(obj, Node):
+        return {"t": "node", "c": [value_from_object(c) for c in obj.children]}
+    return {"t": "int", "v": 0}
+
+
+def struct_from_treedef(td):
+    import jax.tree_util as jtu
+
+    from . import seams
+
+    with seams.quiet():
+        obj = jtu.tree_unflatten(td, [0] * td.num_leaves)
+    return struct_of(value_from_object(obj))
